@@ -25,6 +25,7 @@ type FnResult struct {
 	CoverOK        bool
 	CoverAnswer    string
 	HasContract    bool
+	StaleClauses   []string // written clauses that name locals the function no longer has
 	NewLoopHelpers []string // exempted new helpers with loops this function's obligations were generated through
 	SolverSecs     float64
 	RetReach       string
@@ -183,6 +184,7 @@ func (e *Engine) verifyFnOnce(fn *ssa.Function, opts *VCOpts, post func(fr *Fram
 	}
 	res.RetReach = sOr(rr...)
 	res.NewLoopHelpers = sortedKeys(q.newLoopHelpers)
+	res.StaleClauses = sortedKeys(q.stale)
 	res.Obls = q.obls
 	for _, n := range sortedKeys(q.notes) {
 		res.Notes = append(res.Notes, n)
